@@ -4,9 +4,12 @@
 
 package dns
 
+// C08 (answers are scoped by the upstream they came from): the text an upstream is identified by - in the cache
+// scope and in the forwarder key - spells every part that makes it a different resolver: scheme, host, port AND path.
 //@ func (*Upstream).String
 //@   pure
-//@   trusted
+//@   nonilcheck
+//@   ensures result == cat(cat(cat(u.Scheme, "://"), net.JoinHostPort(u.Hostname, strconv.Itoa(u.Port))), u.Path)
 
 // ---------------------------------------------------------------------------------------------
 // C07: DNS request / response routing = first matching rule of the flat match-set array.
@@ -232,8 +235,8 @@ package dns
 //@   anchorsonly
 //@   dyncalls noeffect
 //@   modifies *
-//@   at call upstreamToId#1 assert a0 == b && value == values[$idx] && ($idx == len(values) - 1 ==> a1 == upstream.Name) && ($idx < len(values) - 1 ==> a1 == consts.OutboundLogicalOr.String())
-//@   at call upstreamToId#2 assert a0 == b && a1 == value
+//@   at call upstreamToId#1 assert a0 == b && ($idx == len(values) - 1 ==> a1 == upstream.Name) && ($idx < len(values) - 1 ==> a1 == consts.OutboundLogicalOr.String())
+//@   at call upstreamToId#2 assert a0 == b && a1 == values[$idx] && $range.$base == values.$base && len($range) == len(values)
 //@   at call builtin:append#1 assert a0 == b.rules && a1[0].Type == consts.MatchType_Upstream && a1[0].Not == f.Not
 //@   at call builtin:append#1 assert 0 <= lastUpstreamId && lastUpstreamId < 65536 ==> a1[0].Value == lastUpstreamId
 //@   at call builtin:append#1 assert 0 <= upstreamId && upstreamId < 256 ==> a1[0].Upstream == upstreamId
